@@ -609,7 +609,8 @@ def case_wire(seed, out, spec):
     env_attrs = OrderedDict()
     for _ in range(r.randrange(0, 3)):
         env_attrs[r.pick(['shared', 'k1', 'e1'])] = 'env%d' % r.randrange(9)
-    env_service = r.pick([None, 'svc-env'])
+    # (the environment is bytes: a value that is not valid UTF-8 reaches python as text with a lone surrogate)
+    env_service = r.pick([None, 'svc-env', 'svc-\udcff-latin'])
     env = {}
     if env_attrs:
         env['DEEP_RESOURCE_ATTRIBUTES'] = ','.join('%s=%s' % kv for kv in env_attrs.items())
@@ -660,7 +661,12 @@ def case_wire(seed, out, spec):
             exp2.update(a)
         observed.append(('poll after the second start', res.get('second_poll_resource'), exp2))
         out.count('wire_restarts')
+    def wire_form(d):
+        # text UTF-8 cannot carry arrives with the code point escaped
+        return {k: (v.encode('utf-8', 'backslashreplace').decode('utf-8') if isinstance(v, str) else v) for k, v in d.items()}
+
     for what, attrs, exp in observed:
+        exp = wire_form(exp)
         if attrs is None:
             out.inconc('wire: no %s observed' % what)
             return
